@@ -197,7 +197,7 @@ template <class T> void spiral_protocol()
   static std::string const name = std::string("spiral_range<") + c18::tname<T>::v + ">";
   static std::string const tn = std::string("spiral_iterator<") + c18::tname<T>::v + ">";
   using pos = fcppt::container::grid::pos<T, 2>;
-  using It = fcppt::container::grid::spiral_iterator<pos>;
+  using It = decltype(std::declval<fcppt::container::grid::spiral_range<pos> const &>().begin());
   if (vrt::begin(tn.c_str(), 0))
   {
     vrt::nontrivial(true);
@@ -208,7 +208,6 @@ template <class T> void spiral_protocol()
     if (!(std::is_same_v<decltype(*std::declval<It const &>()), pos>)) vrt::count("info:" + tn + ":traits:reference"); /* declared iterator traits are recorded, not judged: operator* does not return Pos */
     if (!(std::is_same_v<typename tr::difference_type, T>)) vrt::count("info:" + tn + ":traits:difference_type"); /* declared iterator traits are recorded, not judged: difference_type is not the coordinate type */
     if (!(std::is_same_v<typename tr::iterator_category, std::input_iterator_tag>)) vrt::count("info:" + tn + ":traits:iterator_category"); /* declared iterator traits are recorded, not judged: category is not input */
-    static_assert(std::is_same_v<typename fcppt::container::grid::spiral_range<pos>::iterator, It>);
   }
   int const dmax = vrt::thorough() ? 5 : 3;
   c18p::opts o;
@@ -240,7 +239,7 @@ template <class T> void spiral_protocol()
           vrt::fail(name + ":proto:model", vrt::fmt("plain walk saw %zu points, want %zu", model.size(), n));
           continue;
         }
-        c18p::check(name, r.begin(), r.end(), model,
+        c18p::check_fresh(name, [&r] { return r.begin(); }, [&r] { return r.end(); }, model,
                     [](pos const &p) { return pt(static_cast<long long>(p.x()), static_cast<long long>(p.y())); }, o);
       }
 }
